@@ -51,7 +51,8 @@ SingletonType == Singletons
 
 \* the classes a cell of the matrix is executed for: for a singleton target `self` is the
 \* singleton's own class
-ClassesFor(t) == IF t \in SingletonType THEN CallerClass \ {"self"} ELSE CallerClass
+\* (a placeholder never sends: the moment it does it has become an EthAccount)
+ClassesFor(t) == IF t \in SingletonType \cup {"placeholder"} THEN CallerClass \ {"self"} ELSE CallerClass
 
 \* actor types that deliberately do NOT restrict their internal method numbers to built-in
 \* callers: the EAM (CREATE/CREATE2 are called BY contracts) and EVM contracts themselves
@@ -203,7 +204,7 @@ TDatacap == {
   E("BalanceExported", 49773, 56277, Anyone),
   E("AllowanceExported", 64164, 21046, Anyone),
   \* a holder moves ITS OWN tokens, and only to (or from) the governor
-  V(E("TransferExported", 1227, 63282, {}), "toGovernor", {"client"}),
+  V(E("TransferExported", 1227, 63282, {}), "toGovernor", Holders),
   V(E("TransferExported", 1227, 63282, {}), "toOther", {"verifreg"}),
   \* an approved operator moves a holder's tokens, only to the governor
   V(E("TransferFromExported", 55252, 57069, {}), "toGovernor", Operators),
